@@ -5,6 +5,7 @@ import (
 	"fmt"
 	"io"
 	"net"
+	"runtime"
 	"sync"
 	"time"
 
@@ -71,6 +72,9 @@ type Client struct {
 	eof    bool // client will send no more
 	done   chan struct{}
 	Reads  int
+	// EOFReads counts reads after the client has closed; a server that keeps reading is spinning.
+	EOFReads int
+	Spun     bool
 }
 
 func NewClient() *Client {
@@ -87,6 +91,11 @@ func (c *Client) Read(p []byte) (int, error) {
 			return 0, io.ErrClosedPipe
 		}
 		if eof {
+			c.EOFReads++
+			if c.EOFReads > 64 {
+				c.Spun = true
+				runtime.Goexit()
+			}
 			return 0, io.EOF
 		}
 		select {
